@@ -342,7 +342,7 @@ func runC08(c *core.Ctx) {
 	c08NameProbes(c)
 	c08LateRegistration(c)
 	_ = k
-	c.R.Bound = "49 membership variants x 7 abstract bases x 5 binding modes x 2 graphs; mutation depth per variant: quick 0 (9 corner variants 1), thorough 1 (default variant 2); + all ordered request pairs on one root (10 x 7 documents) and every single implements / union-member extension loaded between requests, for the 9 corner variants (thorough: all 49); + Go type names containing one another x 5 bindings x all member and value orders; + every sequence <= 5 of 3 requests and 2 RegisterType calls on one root (types that bind by registration only)"
+	c.R.Bound = "49 membership variants x 7 abstract bases x 5 binding modes x 2 graphs; mutation depth per variant: quick 0 (9 corner variants 1), thorough 1 (default variant 2); + all ordered request pairs on one root (10 x 7 documents) and every single implements / union-member extension loaded between requests, for the 9 corner variants (thorough: all 49); + Go type names containing one another x 5 bindings x all member and value orders; + every sequence <= 5 (thorough 7) of 3 requests and 2 RegisterType calls on one root (types that bind by registration only)"
 	if !completed {
 		c.Cap("deadline reached")
 	}
@@ -596,7 +596,7 @@ func c08LateRegistration(c *core.Ctx) {
 				}
 			}
 		}
-		if len(seq) == 5 {
+		if maxLen := map[bool]int{false: 5, true: 7}[c.Thorough()]; len(seq) == maxLen {
 			return
 		}
 		for ai, st := range alphabet {
